@@ -450,13 +450,28 @@ def prune_dataflow_cache(world: World):
     """
     if not world.use_cache:
         return
-    min_cache_time = min(s.last_step.time for s in world.sims.values())
+    # Time-shifted consumers still read output from before their own step.
+    max_shift = max(
+        (
+            delay.tiers[0]
+            for dest_sim in world.sims.values()
+            for _, delay in dest_sim.pulled_inputs
+        ),
+        default=0,
+    )
+    min_cache_time = min(s.last_step.time for s in world.sims.values()) - max_shift
     for sim in world.sims.values():
         if sim.outputs:
+            # Output stays valid until it is superseded. So the newest output
+            # from before min_cache_time is still needed, too.
+            oldest_needed = max(
+                (time for time in sim.outputs if time <= min_cache_time),
+                default=min_cache_time,
+            )
             sim.outputs = {
                 time: cache
                 for time, cache in sim.outputs.items()
-                if time >= min_cache_time
+                if time >= oldest_needed
             }
 
 
